@@ -9,3 +9,5 @@ pub mod uf;
 pub mod refmodels;
 #[cfg(kani)]
 mod c09_jenkins;
+#[cfg(kani)]
+mod c09_salsa_arc4;
